@@ -474,7 +474,7 @@ fn find_in_expr(expr: &Rc<Expr>, offset: usize) -> Option<AstNode> {
         | ExprKind::Float(_)
         | ExprKind::Bool(_)
         | ExprKind::Str(_) => Some(expr.node()),
-        ExprKind::TaskBlock(_) => unimplemented!(),
+        ExprKind::TaskBlock(body) => find_in_expr(body, offset).or(Some(expr.node())),
     }
 }
 
@@ -946,7 +946,7 @@ fn find_ident_in_expr(expr: &Rc<Expr>, offset: usize) -> Option<AstNode> {
         | ExprKind::Float(_)
         | ExprKind::Bool(_)
         | ExprKind::Str(_) => None,
-        ExprKind::TaskBlock(_) => unimplemented!(),
+        ExprKind::TaskBlock(body) => find_ident_in_expr(body, offset),
     }
 }
 
@@ -1113,6 +1113,6 @@ fn collect_vars_in_expr(expr: &Rc<Expr>, name: &str, out: &mut Vec<AstNode>) {
             }
         }
         ExprKind::Unwrap(inner) | ExprKind::Try(inner) => collect_vars_in_expr(inner, name, out),
-        ExprKind::TaskBlock(_) => unimplemented!(),
+        ExprKind::TaskBlock(body) => collect_vars_in_expr(body, name, out),
     }
 }
